@@ -149,7 +149,7 @@ def lp_equiv(E, m, S, label="lp=fba"):
         problems.append("constraints nobody asked for: %s" % sorted(extra_c))
     # objective: the LP objective is sum reported_coef * (forward - reverse), direction as reported
     try:
-        rep = {r.id: c for r, c in linear_reaction_coefficients(m).items()}
+        rep = {r.id: c for r, c in linear_reaction_coefficients(m, [r for r in m.reactions if r.id in V]).items()}
     except Exception as e:
         problems.append("linear_reaction_coefficients raised %s" % type(e).__name__)
         rep = {}
@@ -162,7 +162,12 @@ def lp_equiv(E, m, S, label="lp=fba"):
             continue
         conds.append((E.eq(O["coefs"].get(n, 0), want.get(n, 0)), "objective coefficient of %s" % n))
     for r in m.reactions:
-        conds.append((E.eq(r.objective_coefficient, rep.get(r.id, 0)), "objective_coefficient accessor of %s" % r.id))
+        try:
+            oc = r.objective_coefficient
+        except Exception as e:
+            problems.append("objective_coefficient of %s raised %s" % (r.id, type(e).__name__))
+            continue
+        conds.append((E.eq(oc, rep.get(r.id, 0)), "objective_coefficient accessor of %s" % r.id))
     if O["direction"] != m.objective_direction or O["direction"] not in ("max", "min"):
         problems.append("direction %r vs reported %r" % (O["direction"], m.objective_direction))
     E.prove(not problems, label + ":structure", problems=problems[:4], **S_detail(S))
@@ -256,12 +261,16 @@ DOC_EXC = (ValueError, KeyError, TypeError)
 
 
 def _try(S, name, f, exc=DOC_EXC, **args):
+    """run one operation; any exception it raises ends the operation (and, in a C03 block, the block).
+    The properties checked here constrain the *state afterwards*, whatever the exception type."""
     try:
         out = f()
         S.log.append((name, args, None))
         return out
-    except exc as e:
+    except Exception as e:
         S.log.append((name, args, type(e).__name__))
+        if not isinstance(e, exc):
+            S.undocumented = getattr(S, "undocumented", []) + [(name, type(e).__name__)]
         return None
 
 
@@ -386,7 +395,7 @@ def op_subtract_metabolites(E, m, S):
 
 def op_imul(E, m, S):
     r = _rxn(E, m, pool=("R1",))
-    k = E.pick(S.tag("factor"), [2, 0.5, -1, -1.5])
+    k = E.pick(S.tag("factor"), [2, 0.5, -1, -4])
 
     def f():
         rr = r
@@ -435,7 +444,7 @@ def op_rule(E, m, S):
 
 
 def op_add_reactions(E, m, S):
-    kinds = ["new", "new-with-new-gene", "copy-of-R1", "existing-id", "uses-copy-of-met"]
+    kinds = ["new", "new-with-new-gene", "copy-of-R1", "existing-id", "uses-copy-of-met", "id-with-blank"]
     if getattr(S, "removed", None):
         kinds.append("previously-removed")
     kind = E.pick(S.tag("kind"), kinds)
@@ -458,6 +467,10 @@ def op_add_reactions(E, m, S):
         if "R1" not in m.reactions:
             return
         r = m.reactions.R1.copy()
+    elif kind == "id-with-blank":
+        # the solver interface rejects variable names with blanks: add_reactions raises part-way
+        r = Reaction("NEW X")
+        r.add_metabolites({(m.metabolites[0] if len(m.metabolites) else Metabolite("A", compartment="c")): -1})
     else:
         r = Reaction(m.reactions[0].id if len(m.reactions) else "X")
         r.add_metabolites({Metabolite("Q", compartment="c"): 1})
